@@ -20,7 +20,22 @@ TracePut == /\ IsEvent("Put")
                /\ Len(r.vbits) = r.carrier /\ Repr(r.kind, r.vbits, r.w)
                /\ IF r.ok THEN Put(r.kind, r.vbits, r.w) ELSE PutOvf(r.w)
                /\ r.off_after = off'
-TraceAsmEnd == IsEvent("AsmEnd") /\ Rec[l].buf = buf /\ UNCHANGED ioVars
+(* a value that is not representable in w bits: the call must still be total (ok iff it fits), advance the   *)
+(* cursor by w and touch nothing outside the field; which bits land in the field is not fixed by C07, so the *)
+(* field's content is adopted from the buffer logged at the AsmEnd that closes the session                    *)
+TracePutAny == /\ IsEvent("PutAny")
+               /\ LET r == Rec[l] IN
+                  /\ (r.ok \in BOOLEAN /\ Len(r.vbits) = r.carrier /\ r.w >= 1 /\ r.w <= r.carrier) = TRUE
+                  /\ IF r.ok THEN /\ Fits(buf, off, r.w) /\ off' = off + r.w /\ UNCHANGED buf
+                                  /\ last' = [out |-> "any", val |-> <<off, r.w>>]
+                     ELSE PutOvf(r.w)
+                  /\ r.off_after = off'
+OutsideSame(a, b, o, w) == /\ Len(a) = Len(b)
+                           /\ \A g \in 0..(8 * Len(a) - 1) : (g < o \/ g >= o + w) => BitAt(a, g) = BitAt(b, g)
+TraceAsmEnd == /\ IsEvent("AsmEnd")
+               /\ IF last.out = "any"
+                  THEN OutsideSame(Rec[l].buf, buf, last.val[1], last.val[2]) = TRUE /\ buf' = Rec[l].buf /\ UNCHANGED <<off, last>>
+                  ELSE Rec[l].buf = buf /\ UNCHANGED ioVars
 TraceParse == /\ IsEvent("Parse")
               /\ LET r == Rec[l] IN
                  /\ r.ok \in BOOLEAN
@@ -28,7 +43,7 @@ TraceParse == /\ IsEvent("Parse")
                  /\ r.off_after = off'
 
 Init == l = 1 /\ buf = <<>> /\ off = 0 /\ last = [out |-> "init", val |-> <<>>]
-Next == TraceAsmInit \/ TraceParInit \/ TracePut \/ TraceAsmEnd \/ TraceParse
+Next == TraceAsmInit \/ TraceParInit \/ TracePut \/ TracePutAny \/ TraceAsmEnd \/ TraceParse
 
 Explain(r) == [event |-> r.ev, rule |-> "Put: ok iff off+w <= 8*len, cursor += w, exactly the w field bits change (checked at AsmEnd); Parse: value = bits at the cursor decoded per kind; overflow changes nothing"]
 Accepted == LET d == TLCGet("stats").diameter IN
